@@ -7,6 +7,7 @@
 #include <stdio.h>
 #include <string.h>
 
+int dump_bits = 0; /* doubles also carry their IEEE bit pattern */
 void dump_none(const char *key)
 {
 	ev_open_obj(key);
@@ -49,6 +50,8 @@ void dump_value(const char *key, json_object *o)
 		const char *t = json_object_to_json_string_length(o, JSON_C_TO_STRING_PLAIN, &n);
 		ev_str("t", "double");
 		ev_bytes("text", t ? t : "", t ? n : 0);
+		if (dump_bits)
+			ev_dbl("bits", json_object_get_double(o));
 		break;
 	}
 	case json_type_string:
